@@ -61,6 +61,12 @@ fn main() {
         let text = std::fs::read_to_string(&args[2]).expect("replay file");
         let v: Val = serde_json::from_str(&text).expect("replay json");
         let id = v["property"].as_str().expect("property").to_string();
+        if let Some(msg) = v["case"]["unanticipated_panic"].as_str() {
+            // recorded by the sweep engine, not by a clause: there is no single judged case to re-run
+            println!("{} recorded a library panic outside any judged clause: {}", id, msg);
+            println!("re-run `./check {} {}` to reproduce it (sweep item {})", id, v["tier"].as_str().unwrap_or("quick"), v["case"]["sweep_item"]);
+            std::process::exit(1);
+        }
         let l = replay_property(&id, &v["case"]).expect("unknown property");
         println!("replay of {} case: {} clause evaluations, {} violation class(es)", id, l.clauses.values().sum::<u64>(), l.viol_counts.len());
         for x in &l.viol {
